@@ -645,9 +645,27 @@ fn do_frame(w: &mut CaseWriter, ops: &Ops, kind: &str, frame: &[u8], same: bool)
     }
 }
 
+thread_local! {
+    /// 0 = bodies pass through the in-process transport unchanged; n = in pieces of n bytes
+    static CHUNK: std::cell::Cell<usize> = std::cell::Cell::new(0);
+}
+
+/// `echo` / `echo@<n>`: the case kind names the body chunking it ran under.
+fn kind(k: &str) -> String {
+    match CHUNK.with(|c| c.get()) {
+        0 => k.to_string(),
+        n => format!("{}@{:x}", k, n),
+    }
+}
+
+fn set_chunk(n: usize) {
+    CHUNK.with(|c| c.set(n));
+    datacake_rpc::verif::set_body_chunk_size(n);
+}
+
 fn do_echo(w: &mut CaseWriter, ctx: &Ctx, ops: &Ops, frame: &[u8]) {
     let Some(echo) = ops.echo else { return };
-    let case = format!("echo {} {:x} {}", ops.name, ops.fixed, hx(frame));
+    let case = format!("{} {} {:x} {}", kind("echo"), ops.name, ops.fixed, hx(frame));
     match no_panic(|| echo(ctx, frame)) {
         None => {
             w.case(&case, "panic");
@@ -683,7 +701,7 @@ fn do_echo(w: &mut CaseWriter, ctx: &Ctx, ops: &Ops, frame: &[u8]) {
 
 fn do_rpc(w: &mut CaseWriter, ctx: &Ctx, ops: &Ops, bytes: &[u8]) {
     let Some(raw) = ops.raw else { return };
-    let case = format!("rpc {} {:x} {}", ops.name, ops.fixed, hx(bytes));
+    let case = format!("{} {} {:x} {}", kind("rpc"), ops.name, ops.fixed, hx(bytes));
     let acc = acceptable(ops.fixed, bytes);
     // The server casts what `DataView::using` accepts and the handler then reads
     // through that cast.  If `using` accepts bytes that are shorter than the
@@ -744,7 +762,7 @@ fn do_rpc(w: &mut CaseWriter, ctx: &Ctx, ops: &Ops, bytes: &[u8]) {
 }
 
 fn do_status(w: &mut CaseWriter, ctx: &Ctx, code: u8, message: &str) {
-    let case = format!("status {:x} {}", code, hx(message.as_bytes()));
+    let case = format!("{} {:x} {}", kind("status"), code, hx(message.as_bytes()));
     let req = FailReq {
         code,
         message: message.to_string(),
@@ -927,7 +945,16 @@ fn replay(w: &mut CaseWriter, ops: &[Ops], path: &std::path::Path) {
     let mut ctx: Option<Ctx> = None;
     let us = |s: &str| usize::from_str_radix(s, 16).unwrap();
     for line in text.lines() {
-        let t: Vec<&str> = line.split_whitespace().collect();
+        let mut t: Vec<&str> = line.split_whitespace().collect();
+        // "echo@<n>": the exchange ran with bodies delivered in pieces of n bytes
+        let mut chunk = 0;
+        if let Some(k) = t.first().copied() {
+            if let Some((base, n)) = k.split_once('@') {
+                chunk = us(n);
+                t[0] = base;
+            }
+        }
+        set_chunk(chunk);
         match t.as_slice() {
             ["using", ty, fixed, bytes] => match find(ops, ty) {
                 Some(o) if o.fixed == us(fixed) => do_using(w, o, &unhx(bytes), Damage::Other),
@@ -977,6 +1004,7 @@ fn replay(w: &mut CaseWriter, ops: &[Ops], path: &std::path::Path) {
             _ => {},
         }
     }
+    set_chunk(0);
 }
 
 fn main() {
@@ -1143,6 +1171,37 @@ fn main() {
             do_rpc(&mut w, &ctx, o, &ext);
         }
     }
+    // 4. the same exchanges with the transport delivering request and reply bodies in pieces
+    //    without a length hint (what a HTTP/2 connection may do to a body): reassembly must
+    //    return every byte
+    for chunk in [1usize, 3, 16, 1000] {
+        set_chunk(chunk);
+        for o in &ops {
+            if o.echo.is_none() {
+                continue;
+            }
+            let sizes: &[usize] = if light { &[8, 100] } else if thorough { &[0, 1, 8, 40, 100, 1000, 5000, 70_000] } else { &[0, 8, 100, 1000, 5000] };
+            for &size in sizes {
+                if chunk == 1 && size > 1000 {
+                    continue;
+                }
+                let (frame, _) = (o.gen)(&mut rng, size);
+                do_echo(&mut w, &ctx, o, &frame);
+                if frame.len() <= 2000 {
+                    do_rpc(&mut w, &ctx, o, &frame);
+                    do_rpc(&mut w, &ctx, o, &flipped(&frame, rng.below(frame.len() as u64 * 8) as usize));
+                }
+                w.stats.hit("chunked_body_exchanges");
+            }
+        }
+        for msg in ["", "x", "Invalid message payload was provided to be deserialized."] {
+            do_status(&mut w, &ctx, 2, msg);
+        }
+        let m = rand_string(&mut rng, 3000);
+        do_status(&mut w, &ctx, 4, &m);
+    }
+    set_chunk(0);
+
     // handler errors
     for code in 0..5u8 {
         for msg in ["", "x", "Invalid message payload was provided to be deserialized.", "naïve \u{1F980} \0 end"] {
